@@ -206,5 +206,26 @@ CHECKS["C12"] = dict(
           dict(name="bitflips", test="^TestSingleBitFlips$", kind="plain", quick=dict(n=1, procs=1, timeout=300), thorough=dict(n=1, procs=1, timeout=300))],
 )
 
+CHECKS["C19"] = dict(
+    level="exploration",
+    technique="round-trip / ordering / partition-law property testing (rapid) of message, frame and id encoding and Frame.Split; randomized concurrent stress of "
+              "Peer forwarding against a recording transport (exactly once, per-sender order)",
+    level_text="(a) messages (id 0..112 B, channel 0..300 B, payload 0..64 KiB at varint boundaries, ttl 0..2^32-1) and frames of 0..50 messages survive "
+               "Encode/Decode unchanged (nil = empty); (b) NewID gives back ssid (2..24 words incl. wildcard constants), contract and second-resolution time; ids "
+               "created later sort bytewise before earlier ones within and across seconds; 8 goroutines x 10^4 ids are pairwise distinct; (c) Frame.Split for all "
+               "bounds: head++tail = frame, head below the bound and maximal; iterated as the peer does it re-assembles the frame; (d) 1-8 goroutines hand "
+               "200-3000 numbered messages each to a Peer whose 5 ms ticker is the only flusher: the transport receives each exactly once, per-sender order kept, "
+               "nothing once the peer is inactive.",
+    level_note="Trusted: the recording mesh.Gossip stub, VerifNewPeer (= newPeer on a stub swarm). Leg (d) samples Go-scheduler interleavings; no shrinking. Single "
+               "messages at or above the split bound cannot occur in the broker (64 KiB packet cap vs 10 MiB bound) and are excluded (counted).",
+    rule="rapid cases + stress rounds; non-trivial = frame of >=2 messages or a large payload/ttl, >=2 time steps, a frame that splits into >=2 chunks, a peer round with "
+         ">=2 concurrent senders; distinct = distinct case value.",
+    legs=[dict(name="codec", test="^TestCodec$", quick=dict(n=3000, procs=2, timeout=300), thorough=dict(n=300000, procs=6, timeout=2400)),
+          dict(name="ids", test="^TestIDs$", quick=dict(n=5000, procs=1, timeout=300), thorough=dict(n=500000, procs=2, timeout=2400)),
+          dict(name="ids-concurrent", test="^TestIDsDistinctConcurrent$", kind="plain", quick=dict(n=3, procs=1, timeout=300), thorough=dict(n=60, procs=2, timeout=1200)),
+          dict(name="split", test="^TestSplit$", quick=dict(n=10000, procs=1, timeout=300), thorough=dict(n=1000000, procs=2, timeout=2400)),
+          dict(name="peer", test="^TestPeerForwarding$", kind="plain", quick=dict(n=12, procs=2, timeout=300), thorough=dict(n=600, procs=6, timeout=2400))],
+)
+
 for _k in CHECKS:
     NOT_APPLICABLE.pop(_k, None)
